@@ -29,6 +29,10 @@ type C17Case struct {
 	WOps  []LifeOp   `json:"wops"`
 	ROps  []LifeOp   `json:"rops"`
 	RJobs uint       `json:"rjobs"`
+	// reader over an unhealthy source (the counters must stay monotone whatever happens to the source)
+	RCut      int   `json:"rcut,omitempty"`       // > 0: the source ends after RCut % (len+1) bytes of the stream (truncation)
+	RFailAt   int   `json:"rfail_at,omitempty"`   // > 0: the RFailAt-th underlying source read fails once
+	RSrcSizes []int `json:"rsrc_sizes,omitempty"` // sizes of the pieces the source delivers (last repeats)
 }
 
 type c17Out struct {
@@ -185,8 +189,21 @@ func runC17(r *vrt.Run, c C17Case) (o c17Out) {
 	// the produced stream must decode to the accepted data (empty stream -> empty output + EOF)
 	stream := sink.Data
 	src := fio.NewSource(stream)
+	unhealthy := false
+	if c.RCut > 0 {
+		src.Data = stream[:c.RCut%(len(stream)+1)]
+		unhealthy = len(src.Data) < len(stream)
+	}
+	if c.RFailAt > 0 {
+		src.FailRead = map[int]bool{c.RFailAt: true}
+		unhealthy = true
+	}
+	src.Sizes = c.RSrcSizes
 	rd, err := kio.NewReader(src, max(c.RJobs, 1))
 	if err != nil {
+		if unhealthy {
+			return
+		}
 		o.msg = "reader construction failed: " + err.Error()
 		return
 	}
@@ -194,6 +211,7 @@ func runC17(r *vrt.Run, c C17Case) (o c17Out) {
 	rclosed := false
 	atEOF := false
 	lastRead := uint64(0)
+	sawSrcErr := false
 	rops := append(append([]LifeOp(nil), c.ROps...), LifeOp{K: "read", N: len(accepted) + 10}, LifeOp{K: "read", N: 5}, LifeOp{K: "close"}, LifeOp{K: "read", N: 3}, LifeOp{K: "close"})
 	for i, op := range rops {
 		where := fmt.Sprintf("reader op %d (%s %d)", i, op.K, op.N)
@@ -225,8 +243,11 @@ func runC17(r *vrt.Run, c C17Case) (o c17Out) {
 				}
 				atEOF = true
 			} else if e != nil {
-				o.msg = fmt.Sprintf("%s: error on a valid stream: %v", where, e)
-				return
+				if !unhealthy {
+					o.msg = fmt.Sprintf("%s: error on a valid stream: %v", where, e)
+					return
+				}
+				sawSrcErr = true
 			} else if atEOF && op.N > 0 {
 				o.msg = fmt.Sprintf("%s: Read returned (%d, nil) after end of stream had been reported (EOF must be stable)", where, n)
 				return
@@ -250,7 +271,7 @@ func runC17(r *vrt.Run, c C17Case) (o c17Out) {
 		}
 		if !rclosed {
 			if gr < lastRead {
-				o.msg = fmt.Sprintf("%s: GetRead went backwards: %d after %d", where, gr, lastRead)
+				o.msg = fmt.Sprintf("%s: GetRead went backwards: %d after %d (source healthy: %v)", where, gr, lastRead, !unhealthy)
 				return
 			}
 			if gr > uint64(len(stream)) {
@@ -259,6 +280,10 @@ func runC17(r *vrt.Run, c C17Case) (o c17Out) {
 			}
 			lastRead = gr
 		}
+	}
+	if unhealthy {
+		o.nontrivial = o.nontrivial || sawSrcErr
+		return
 	}
 	earlyClose := false
 	for _, op := range c.ROps {
@@ -358,6 +383,31 @@ func TestC17(t *testing.T) {
 	}
 	r.Rapid(t, "histories", 3000, 200000, func(t *rapid.T) {
 		c := drawC17(t, false)
+		if o := c17Eval(r, c); o.msg != "" {
+			r.Violation(t, "lifecycle", c, "%s", o.msg)
+		}
+	})
+	r.Rapid(t, "reader-histories-on-unhealthy-sources", 1500, 80000, func(t *rapid.T) {
+		c := drawC17(t, false)
+		// several reads, no early Close: the interesting part is what the counters do around the failure
+		c.ROps = nil
+		bs := int(c.Cfg.BlockSize)
+		for i, n := 0, rapid.IntRange(2, 12).Draw(t, "nr2"); i < n; i++ {
+			c.ROps = append(c.ROps, LifeOp{K: "read", N: rapid.OneOf(rapid.Just(1), rapid.IntRange(bs-1, bs+1), rapid.IntRange(1, 4*bs)).Draw(t, "rn2")})
+		}
+		switch rapid.IntRange(0, 2).Draw(t, "unhealthy") {
+		case 0:
+			c.RCut = rapid.IntRange(1, 1<<20).Draw(t, "rcut")
+		case 1:
+			c.RFailAt = rapid.IntRange(1, 12).Draw(t, "rfail")
+		default:
+			c.RCut = rapid.IntRange(1, 1<<20).Draw(t, "rcut")
+			c.RFailAt = rapid.IntRange(1, 12).Draw(t, "rfail")
+		}
+		if rapid.Bool().Draw(t, "pieces") {
+			// multiples of 8 keep the bitstream's short-read loop out of the way; other sizes exercise it
+			c.RSrcSizes = rapid.SliceOfN(rapid.OneOf(rapid.SampledFrom([]int{8, 64, 1024, 4096, 32768}), rapid.IntRange(1, 5000)), 1, 6).Draw(t, "pieces")
+		}
 		if o := c17Eval(r, c); o.msg != "" {
 			r.Violation(t, "lifecycle", c, "%s", o.msg)
 		}
